@@ -379,7 +379,25 @@ pub fn install(root: &str, mode: Mode) {
     KERNEL_ON.store(true, Ordering::SeqCst);
 }
 
+/// soft RLIMIT_FSIZE of this process (None = unlimited); SIGXFSZ is ignored so that the
+/// refused write returns EFBIG instead of killing the process
+pub fn real_fsize_limit(cap: Option<u64>) {
+    unsafe {
+        libc::signal(libc::SIGXFSZ, libc::SIG_IGN);
+        let mut rl = libc::rlimit { rlim_cur: 0, rlim_max: 0 };
+        libc::getrlimit(libc::RLIMIT_FSIZE, &mut rl);
+        rl.rlim_cur = match cap {
+            Some(c) => c.min(rl.rlim_max),
+            None => rl.rlim_max,
+        };
+        libc::setrlimit(libc::RLIMIT_FSIZE, &rl);
+    }
+}
+
 pub fn uninstall() {
+    if installed() && with(|k| k.mode == Mode::Trace && !k.caps.is_empty()) {
+        real_fsize_limit(None);
+    }
     KERNEL_ON.store(false, Ordering::SeqCst);
     unsafe {
         *KERNEL.0.get() = None;
@@ -426,7 +444,19 @@ impl Kernel {
             d.seen = 0;
         }
     }
+    /// per-file size cap from now on. In Trace mode (real kernel) the cap is the real
+    /// RLIMIT_FSIZE of the process (all files; SIGXFSZ ignored): used by `selftest twin-cap`
+    /// to compare the simulated size-cap fault with the real thing.
+    pub fn set_cap(&mut self, file: &str, cap: u64) {
+        self.caps.push((file.to_string(), cap));
+        if self.mode == Mode::Trace {
+            real_fsize_limit(Some(cap));
+        }
+    }
     pub fn lift_faults(&mut self) {
+        if self.mode == Mode::Trace && !self.caps.is_empty() {
+            real_fsize_limit(None);
+        }
         self.caps.clear();
         for i in self.inodes.iter_mut() {
             i.refuse = None;
@@ -767,7 +797,9 @@ impl Kernel {
             return Err(libc::EINTR);
         }
         if let Some(cap) = self.cap_for(ino) {
-            if len > cap {
+            // like the real RLIMIT_FSIZE: only a truncate that grows the file is checked
+            // (found by `selftest twin-cap`)
+            if len > cap && len > cur {
                 self.fire("size-cap");
                 self.record(KOp::Ftruncate, ino, len, 0, -(libc::EFBIG as i64));
                 return Err(libc::EFBIG);
@@ -823,6 +855,16 @@ impl Kernel {
 // ------------------------------------------------------------------------------------------
 // raw pass-through
 // ------------------------------------------------------------------------------------------
+
+/// return value as the simulated kernel records it: -errno on failure
+#[inline]
+fn traced_ret(r: i64) -> i64 {
+    if r < 0 {
+        -(unsafe { *libc::__errno_location() } as i64)
+    } else {
+        r
+    }
+}
 
 #[inline]
 unsafe fn set_errno(e: i32) {
@@ -936,7 +978,7 @@ pub unsafe extern "C" fn read(fd: c_int, buf: *mut c_void, count: size_t) -> ssi
             if r > 0 {
                 f.pos += r as u64;
             }
-            k.record(KOp::Read, ino, pos, count as u64, r as i64);
+            k.record(KOp::Read, ino, pos, count as u64, traced_ret(r as i64));
         });
     }
     r
@@ -962,7 +1004,7 @@ pub unsafe extern "C" fn write(fd: c_int, buf: *const c_void, count: size_t) -> 
             if r > 0 {
                 f.pos += r as u64;
             }
-            k.record(KOp::Write, ino, pos, count as u64, r as i64);
+            k.record(KOp::Write, ino, pos, count as u64, traced_ret(r as i64));
         });
     }
     r
@@ -986,7 +1028,7 @@ unsafe fn do_lseek(fd: c_int, off: off_t, whence: c_int) -> off_t {
                 f.pos = r as u64;
             }
             let ino = f.ino;
-            k.record(KOp::Lseek, ino, off as u64, whence as u64, r as i64);
+            k.record(KOp::Lseek, ino, off as u64, whence as u64, traced_ret(r as i64));
         });
     }
     r
@@ -1014,7 +1056,7 @@ unsafe fn do_ftruncate(fd: c_int, len: off_t) -> c_int {
     if traced(fd) {
         with(|k| {
             let ino = k.real_fds.get(&fd).unwrap().ino;
-            k.record(KOp::Ftruncate, ino, len as u64, 0, r as i64);
+            k.record(KOp::Ftruncate, ino, len as u64, 0, traced_ret(r as i64));
         });
     }
     r
@@ -1043,7 +1085,7 @@ pub unsafe extern "C" fn fsync(fd: c_int) -> c_int {
     if traced(fd) {
         with(|k| {
             let ino = k.real_fds.get(&fd).unwrap().ino;
-            k.record(KOp::Fsync, ino, 0, 0, r as i64);
+            k.record(KOp::Fsync, ino, 0, 0, traced_ret(r as i64));
         });
     }
     r
@@ -1064,7 +1106,7 @@ pub unsafe extern "C" fn fdatasync(fd: c_int) -> c_int {
     if traced(fd) {
         with(|k| {
             let ino = k.real_fds.get(&fd).unwrap().ino;
-            k.record(KOp::Fdatasync, ino, 0, 0, r as i64);
+            k.record(KOp::Fdatasync, ino, 0, 0, traced_ret(r as i64));
         });
     }
     r
